@@ -235,26 +235,17 @@ def trFragment (o : Opts) (env : Env) : Node → St → Node × St
 def trAttrs (o : Opts) (env : Env) (isComp : Bool) : List Node → AttrAcc → St → AttrAcc × St
   | [], acc, st => (acc, st)
   | a :: rest, acc, st =>
-    match a with
-    | .mk .jsxAttr aas [nameN, .mk .jsxElement eas eks] =>
-      if isDirectiveAttrName (attrNameOf nameN) then
-        let (acc, st) := attrStep o isComp (.mk .jsxAttr aas [nameN, .mk .jsxElement eas eks]) none acc st
-        trAttrs o env isComp rest acc st
-      else
-        let (e, st) := trElement o env (.mk .jsxElement eas eks) st
-        let (acc, st) := attrStep o isComp (.mk .jsxAttr aas [nameN, .mk .jsxElement eas eks]) (some e) acc st
-        trAttrs o env isComp rest acc st
-    | .mk .jsxAttr aas [nameN, .mk .jsxFragment eas eks] =>
-      if isDirectiveAttrName (attrNameOf nameN) then
-        let (acc, st) := attrStep o isComp (.mk .jsxAttr aas [nameN, .mk .jsxFragment eas eks]) none acc st
-        trAttrs o env isComp rest acc st
-      else
-        let (e, st) := trFragment o env (.mk .jsxFragment eas eks) st
-        let (acc, st) := attrStep o isComp (.mk .jsxAttr aas [nameN, .mk .jsxFragment eas eks]) (some e) acc st
-        trAttrs o env isComp rest acc st
-    | a =>
-      let (acc, st) := attrStep o isComp a none acc st
-      trAttrs o env isComp rest acc st
+    let (lowered, st) : Option Node × St :=
+      match a with
+      | .mk .jsxAttr _ [nameN, .mk .jsxElement eas eks] =>
+        if isDirectiveAttrName (attrNameOf nameN) then (none, st)
+        else let (e, st) := trElement o env (.mk .jsxElement eas eks) st; (some e, st)
+      | .mk .jsxAttr _ [nameN, .mk .jsxFragment eas eks] =>
+        if isDirectiveAttrName (attrNameOf nameN) then (none, st)
+        else let (e, st) := trFragment o env (.mk .jsxFragment eas eks) st; (some e, st)
+      | _ => (none, st)
+    let (acc, st) := attrStep o isComp a lowered acc st
+    trAttrs o env isComp rest acc st
 
 /-- `transform_attrs(attrs, is_component, directives)` -/
 def transformAttrs (o : Opts) (env : Env) (attrs : List Node) (isComp : Bool) (st : St) : AttrsResult × St :=
